@@ -350,7 +350,7 @@ var cpClasses = [][]rune{
 	{0xd7ff, 0xe000, 0xfffe, 0xffff}, // surrogate-adjacent, noncharacters
 	{0x10000, 0x1f600, 0x10ffff, 0xe0001}, // astral
 	{0x378, 0x30000, 0xeffff},        // unassigned
-	{'a', 'b', 'z', 'A', '0', '9', ' ', '.', '#', ':', ',', '[', ']', '{', '}', 'é', 'ß', '中', 'u', 'n', 't'},
+	{'a', 'b', 'z', 'A', '0', '9', ' ', '.', '#', ':', ',', '[', ']', '{', '}', 'é', 'ß', '中', 'u', 'n', 't', '%', 's', 'd', 'v', '<', '>', '&', '\'', '`'},
 }
 
 func (r *R) rune_() rune {
@@ -385,7 +385,7 @@ func (r *R) str() string {
 	return b.String()
 }
 
-var keyPool = []string{"", "a", "b", "c", "a.b", "#0", ".x", "\"q\"", "é", "k1", "k2", "x y", "#", ".", "0", "1", "a#1", "\\", "\n"}
+var keyPool = []string{"", "a", "b", "c", "a.b", "#0", ".x", "\"q\"", "é", "k1", "k2", "x y", "#", ".", "0", "1", "a#1", "\\", "\n", "100%", "%s", "%%d", "%!v", "a\tb", "\r"}
 
 func (r *R) key() string {
 	if r.chance(0.7) {
